@@ -1,4 +1,5 @@
 import LSProofs.ConcInv
+import LSProofs.ConcLendInv
 import LSProofs.Tie
 /-!
 # C04 — handles are independent and memory-safe across threads, under every schedule
@@ -106,3 +107,70 @@ theorem repaired_has_no_such_schedule : Conc.run false (initCfg 2) [(0, .legacyP
 example : (Conc.run false (initCfg 2) [(0, .probe 0), (1, .drop 0), (0, .copyRead), (0, .copyFinish), (0, .free)]).isSome = true := by decide
 
 end LS.C04
+
+/-!
+## Extension: handles lent by reference (`&LeanString` shared between threads)
+
+`LS.ConcL` adds to the protocol: `lend a` (the owner freezes its handle: Rust forbids `&mut` use
+while shared borrows exist), `cloneBorrowed a` and `readBorrowedStart/End a` by *any other thread*
+while the handle is lent, and `reclaim` (only when no borrowed read is in progress). The same
+safety statement holds for every schedule: a buffer read through a borrowed reference is live (its
+lender still owns it), and nobody writes, reallocates or frees it meanwhile.
+-/
+namespace LS.C04L
+open LS LS.ConcL
+
+def initCfg (n : Nat) : Cfg := { blocks := [{ live := true, rc := n }], threads := List.replicate n { owned := [0] } }
+
+theorem cnt_replicate (n a : Nat) (t : Thread) : cnt (List.replicate n t) a = n * t.owned.count a := by
+  unfold cnt
+  induction n with
+  | zero => simp
+  | succ k ih => simp only [List.replicate_succ, List.map_cons, List.sum_cons, ih]; rw [Nat.succ_mul]; omega
+
+theorem init_inv (n : Nat) : CInv (initCfg n) := by
+  have hget : ∀ (i : Nat) (t : Thread), (initCfg n).threads[i]? = some t → t = { owned := [0] } := by
+    intro i t h
+    simp only [initCfg] at h
+    rw [List.getElem?_replicate] at h
+    split at h
+    · injection h with h; exact h.symm
+    · cases h
+  refine ⟨?_, ?_, ?_, ?_, ?_, ?_, ?_, ?_⟩
+  · intro a b hb _
+    simp only [initCfg] at hb ⊢
+    cases a with
+    | zero => simp at hb; subst hb; rw [cnt_replicate]; simp
+    | succ a => simp at hb
+  · intro i t ht a ha
+    rw [hget i t ht] at ha; simp at ha; subst ha; simp [initCfg, liveOf]
+  · intro i t a ht hp
+    rw [hget i t ht] at hp; simp [Phase.needsHandle] at hp
+  · intro i t a ht hp; rw [hget i t ht] at hp; cases hp
+  · intro i t a ht hp; rw [hget i t ht] at hp; cases hp
+  · intro i t a ht; rw [hget i t ht]; simp
+  · intro i t a ht hp; rw [hget i t ht] at hp; cases hp
+  · intro i t a ht hp; rw [hget i t ht] at hp; cases hp
+
+/-- memory safety under every schedule, any number of threads, **with borrowed references** -/
+theorem safe_with_borrows (n : Nat) (sched : List (Nat × Act)) (c' : Cfg)
+    (h : ConcL.run false (initCfg n) sched = some c') : Safe c' :=
+  run_safe sched _ c' (init_inv n) h
+
+/-- a read through a borrowed reference always has a lender that still owns the buffer -/
+theorem borrowed_read_has_owner (n : Nat) (sched : List (Nat × Act)) (c' : Cfg)
+    (h : ConcL.run false (initCfg n) sched = some c') (j : Nat) (u : Thread) (a : Nat)
+    (hu : c'.threads[j]? = some u) (hp : u.phase = .readingBorrowed a) :
+    ∃ (k : Nat) (v : Thread), c'.threads[k]? = some v ∧ v.phase = .lending a ∧ a ∈ v.owned := by
+  have inv := run_inv sched _ c' (init_inv n) h
+  obtain ⟨k, v, hv, hpv⟩ := inv.borrowed_lender j u a hu hp
+  exact ⟨k, v, hv, hpv, inv.lending_owned k v a hv hpv⟩
+
+-- non-vacuity: thread 0 lends; thread 1 reads through the reference and clones it, then mutates
+-- its own clone (copy-out), while thread 2 drops its handle; thread 0 reclaims afterwards
+example : (ConcL.run false (initCfg 3) [(0, .lend 0), (1, .readBorrowedStart 0), (2, .drop 0), (1, .readBorrowedEnd),
+    (1, .cloneBorrowed 0), (1, .probe 0), (1, .copyRead), (0, .reclaim), (1, .copyFinish), (0, .drop 0)]).isSome = true := by decide
+-- the owner cannot reclaim (hence cannot drop or mutate) while a borrowed read is in progress
+example : ConcL.run false (initCfg 2) [(0, .lend 0), (1, .readBorrowedStart 0), (0, .reclaim)] = none := by decide
+
+end LS.C04L
